@@ -52,8 +52,10 @@ def _flow_class():
         class FlowDiscipline(Discipline):
             """out_v = sum_k w_k * in_k + c_v  (integers carried by doubles)."""
 
-            def __init__(self, name, ins, outs, w, c, defaults):
+            def __init__(self, name, ins, outs, w, c, defaults, log=None, pos=0):
                 super().__init__(name)
+                self._log = log
+                self._pos = pos
                 self.input_grammar.update_from_names(ins)
                 self.output_grammar.update_from_names(outs)
                 self._w = w
@@ -61,6 +63,8 @@ def _flow_class():
                 self.default_input_data = {k: array([float(defaults[k])]) for k in ins if k in defaults}
 
             def _run(self, input_data):
+                if self._log is not None:
+                    self._log.append(self._pos)     # list.append is atomic: safe under the thread back-end
                 s = 0.0
                 for k, wk in self._w.items():
                     s += wk * input_data[k][0]
@@ -70,9 +74,9 @@ def _flow_class():
     return _CLS["c"]
 
 
-def build(case, defaults):
+def build(case, defaults, log=None):
     cls = _flow_class()
-    return [cls(case["name"][p], case["ins"][p], case["outs"][p], case["w"][p], case["c"][p], defaults)
+    return [cls(case["name"][p], case["ins"][p], case["outs"][p], case["w"][p], case["c"][p], defaults, log, p + 1)
             for p in range(case["n"])]
 
 
@@ -114,7 +118,7 @@ def observe(case, kinds):
     from gemseo.core.dependency_graph import DependencyGraph
 
     rep = {"code": case["code"], "status": "ok", "seq": [], "dgseq": [], "strong": [], "weak": [], "all": [],
-           "scd": [], "wcd": [], "sgroups": [], "outc": [], "inc": [], "finder": [], "runs": [], "errors": {}}
+           "scd": [], "wcd": [], "sgroups": [], "outc": [], "inc": [], "finder": [], "edges": [], "runs": [], "errors": {}}
     names = sorted(set().union(*case["ins"], *case["outs"])) if case["n"] else []
     try:
         ds = build(case, case["x0"])
@@ -132,6 +136,8 @@ def observe(case, kinds):
                        for d in ds]
         rep["inc"] = [[list(cs.get_input_couplings(d, strong=True)), list(cs.get_input_couplings(d, strong=False))]
                       for d in ds]
+        rep["edges"] = [[pos.get(id(a), 0), pos.get(id(b), 0), list(names_)]
+                        for a, b, names_ in cs.graph.get_disciplines_couplings()]
         finder = []
         for v in [*names, "zz"]:
             try:
@@ -155,10 +161,12 @@ def run_kind(case, kind, names, rep):
     from gemseo.core.coupling_structure import CouplingStructure
     from gemseo.mda.mda_chain import MDAChain
 
-    run = {"kind": kind, "status": "ok", "names": [], "vals": [], "integral": True, "order": [], "mdas": []}
+    run = {"kind": kind, "status": "ok", "names": [], "vals": [], "integral": True, "order": [], "mdas": [],
+           "log": [], "gin": [], "gout": []}
+    log = run["log"]
     try:
         if kind.startswith("mdachain"):
-            ds = build(case, case["x0"])
+            ds = build(case, case["x0"], log)
             pos = _positions(ds)
             # plain fixed-point iterations (no acceleration, no relaxation): on a nilpotent integer system
             # every iterate is an integer vector, the residual is 0 exactly at the fixed point and at
@@ -174,10 +182,14 @@ def run_kind(case, kind, names, rep):
             run["mdas"] = [[pos.get(id(d), 0) for d in m.disciplines] for m in mda.inner_mdas]
             out = mda.execute()
         elif kind in ("chain", "parchain"):
-            ds = build(case, case["x0"])
+            ds = build(case, case["x0"], log)
+            pos = _positions(ds)
             seq = CouplingStructure(ds).sequence
             if kind == "chain":
                 proc = MDOChain([d for stage in seq for grp in stage for d in grp])
+                run["order"] = [pos.get(id(d), 0) for d in proc.disciplines]
+                run["gin"] = list(proc.io.input_grammar)
+                run["gout"] = list(proc.io.output_grammar)
             else:
                 stages = []
                 for stage in seq:
@@ -187,7 +199,7 @@ def run_kind(case, kind, names, rep):
             out = proc.execute()
         elif kind == "initchain":
             free = {k: case["x0"][k] for k in case["free"]}
-            ds = build(case, free)
+            ds = build(case, free, log)
             pos = _positions(ds)
             proc = MDOInitializationChain(ds)
             run["order"] = [pos.get(id(d), 0) for d in proc.disciplines]
@@ -201,6 +213,19 @@ def run_kind(case, kind, names, rep):
         run["status"] = _status(ex)
         rep["errors"][kind] = traceback.format_exc(limit=8)
     return run
+
+
+def warm_up():
+    """Import what the replay needs (before the worker processes are forked)."""
+    import gemseo.core.chains.chain  # noqa: F401
+    import gemseo.core.chains.initialization_chain  # noqa: F401
+    import gemseo.core.chains.parallel_chain  # noqa: F401
+    import gemseo.core.coupling_structure  # noqa: F401
+    import gemseo.mda.gauss_seidel  # noqa: F401
+    import gemseo.mda.jacobi  # noqa: F401
+    import gemseo.mda.mda_chain  # noqa: F401
+
+    _flow_class()
 
 
 def observe_many(args):
